@@ -14,6 +14,21 @@
 //! transaction to completion, restart, sweep after every timeout, a new
 //! transaction on the same keys, restart.
 //!
+//! Strengthened (round 2) by three more general kinds, none of which changes the
+//! ledger oracle:
+//!  * unusual-size inputs: `BeginWide` begins a transaction with 8 300 - 262 000
+//!    participants, so that single log records (TxBegin, AbortIntent) reach
+//!    64 KiB - 1 MiB; such programs sample their crash points (`Mode::Sample`);
+//!  * scheduled threads: `Par` runs 2-4 threads under the baton scheduler
+//!    (`sched::run_threads`, switches at the `tensor_chain.` lock sites) that issue
+//!    record_vote / commit / abort for the same transactions concurrently; the
+//!    results are applied to the ledger in the order in which the calls returned;
+//!  * participant-numbered lock handles (`handle_numbering = 1`): YES votes carry
+//!    handle values numbered from 1 in every incarnation (a new process restarts
+//!    its handle counter), so handle values repeat across transactions; the clause
+//!    "locks of completed transactions are released" is also decided after every
+//!    restart through what recovery reports as orphaned locks.
+//!
 //! Oracle = ledger of completions that were logged before a restart
 //! (`commit`/`abort` returned `Ok` while the node was alive, or — for the call
 //! cut by the crash — the `TxComplete` record lies wholly in the surviving
@@ -25,8 +40,9 @@ use crate::net::{new_net, now_or_never, Net, SimTransport};
 use crate::rng::Rng;
 use serde::{Deserialize, Serialize};
 use serde_json::{json, Value};
-use std::collections::BTreeMap;
-use std::sync::{Arc, Once, RwLock};
+use std::collections::{BTreeMap, BTreeSet};
+use std::sync::atomic::{AtomicU64, Ordering};
+use std::sync::{Arc, Mutex, Once, RwLock};
 use tensor_chain::network::Message;
 use tensor_chain::{
     lock_handle_current, ConsensusConfig, ConsensusManager, DeltaVector, DistributedTxConfig, DistributedTxCoordinator,
@@ -68,6 +84,32 @@ pub enum Step {
     Recover,
     /// clean restart: drop, reopen, `recover_from_wal`
     Restart,
+    /// begin a transaction in slot `t` with `n` participants whose shard ids are
+    /// `base`, `base+1`, ... (an unusual-size input: its TxBegin record, and the
+    /// AbortIntent record of its timeout, are 64 KiB - 1 MiB long); participant
+    /// number j works on key (kb+j)%6
+    BeginWide { t: u8, n: u32, base: u64, kb: u8 },
+    /// 2-4 scheduled threads issue their operations concurrently on the one
+    /// coordinator; `schedule` picks the thread to run at every schedule point
+    Par {
+        threads: Vec<Vec<POp>>,
+        schedule: Vec<u8>,
+        /// the participants prepare (take their key locks through `handle_prepare`)
+        /// one after the other before the threads start, so that only their votes,
+        /// and the decisions, meet concurrently at the coordinator
+        #[serde(default)]
+        ahead: bool,
+    },
+}
+
+/// One operation of a thread of a `Par` step.
+#[derive(Serialize, Deserialize, Clone, Debug, PartialEq)]
+pub enum POp {
+    /// the vote of participant number `s` (YES takes the key lock through
+    /// `handle_prepare` when the participant has not voted yet)
+    Vote { t: u8, s: u8, yes: bool },
+    Commit { t: u8 },
+    Abort { t: u8 },
 }
 
 #[derive(Serialize, Deserialize, Clone, Debug, PartialEq)]
@@ -85,6 +127,9 @@ pub struct CrashSpec {
 pub enum Mode {
     Enumerate,
     Chain(Vec<CrashSpec>),
+    /// like Enumerate, but only `points` of the crash points, drawn with `seed`
+    /// (programs with very long records or thread blocks, where one execution is dear)
+    Sample { seed: u64, points: u32 },
 }
 
 #[derive(Serialize, Deserialize, Clone, Debug)]
@@ -93,6 +138,12 @@ pub struct Case {
     /// call `recover()` right after every `recover_from_wal()`
     pub recover_after_restart: bool,
     pub mode: Mode,
+    /// who numbers the lock handles that YES votes carry. 0: the coordinator's
+    /// process-wide counter (the handle `handle_prepare` returned). 1: the
+    /// participants' own numbering, which starts again from 1 in every incarnation
+    /// (a new process), so that handle values repeat across transactions
+    #[serde(default)]
+    pub handle_numbering: u8,
 }
 
 pub struct C13;
@@ -150,7 +201,8 @@ fn id_shared() -> std::sync::RwLockReadGuard<'static, ()> {
 #[derive(Clone, Debug)]
 struct TxRec {
     id: u64,
-    parts: Vec<usize>,
+    /// shard ids of the participants (participant number j = index j)
+    parts: Arc<Vec<usize>>,
     kb: u8,
     /// votes the live coordinator accepted: shard -> (yes, lock handle)
     votes: BTreeMap<usize, (bool, u64)>,
@@ -193,9 +245,10 @@ fn vote_yes_handle(v: &PrepareVote) -> (bool, u64) {
 
 /// number of complete `[len u32][crc u32][payload]` frames at the start of
 /// `raw` and the offset where they end
-fn frames(raw: &[u8]) -> (usize, usize) {
+fn frames(raw: &[u8]) -> (usize, usize, usize) {
     let mut pos = 0usize;
     let mut n = 0usize;
+    let mut longest = 0usize;
     while pos + 8 <= raw.len() {
         let l = u32::from_le_bytes([raw[pos], raw[pos + 1], raw[pos + 2], raw[pos + 3]]) as usize;
         if l > (1 << 24) || pos + 8 + l > raw.len() {
@@ -203,8 +256,9 @@ fn frames(raw: &[u8]) -> (usize, usize) {
         }
         pos += 8 + l;
         n += 1;
+        longest = longest.max(l);
     }
-    (n, pos)
+    (n, pos, longest)
 }
 
 fn cut_choice(cut: u64, lo: u64, hi: u64) -> u64 {
@@ -238,6 +292,34 @@ struct Trial<'a> {
     /// log length right after the last open that found a torn tail (0 = none pending)
     torn_open_len: Option<u64>,
     crashes_fired: usize,
+    /// next participant-numbered lock handle (`handle_numbering = 1`); back to 1 at every restart
+    next_handle: Arc<AtomicU64>,
+    harness_error: Option<String>,
+    /// (step index, schedule) that replaces the schedule of that `Par` step in this execution
+    par_override: Option<(usize, Vec<u8>)>,
+    /// (step index, threads, scheduler steps) of every `Par` step executed
+    par_steps: Vec<(usize, usize, usize)>,
+}
+
+/// What a thread of a `Par` step knows about a transaction (taken when the step starts).
+#[derive(Clone)]
+struct ParTx {
+    id: u64,
+    parts: Arc<Vec<usize>>,
+    kb: u8,
+    /// participants (by number) whose vote the coordinator had accepted before the step
+    voted: BTreeSet<usize>,
+}
+
+/// Outcome of one operation of a `Par` thread, in the order in which the calls returned.
+struct ParResult {
+    thread: usize,
+    op: POp,
+    /// (participant number, shard id, vote sent, handle of the real lock taken for it)
+    vote: Option<(usize, usize, PrepareVote, Option<u64>)>,
+    vote_res: Option<std::result::Result<Option<TxPhase>, VoteRecordError>>,
+    ok: bool,
+    alive: bool,
 }
 
 impl<'a> Trial<'a> {
@@ -262,6 +344,20 @@ impl<'a> Trial<'a> {
             observations: Vec::new(),
             torn_open_len: None,
             crashes_fired: 0,
+            next_handle: Arc::new(AtomicU64::new(1)),
+            harness_error: None,
+            par_override: None,
+            par_steps: Vec::new(),
+        }
+    }
+
+    /// A lock handle under which the coordinator's lock manager holds nothing
+    /// (late / duplicate messages take no lock; participant-numbered handles).
+    fn free_handle(numbering: u8, counter: &AtomicU64, id: u64) -> u64 {
+        if numbering == 1 {
+            counter.fetch_add(1, Ordering::Relaxed)
+        } else {
+            LockManager::new().try_lock(id, &[]).unwrap_or(0)
         }
     }
 
@@ -284,8 +380,20 @@ impl<'a> Trial<'a> {
         self.by_id.get(&id).copied()
     }
 
-    fn key(kb: u8, shard: usize) -> String {
-        format!("k{}", (kb as usize + shard) % 6)
+    fn key(kb: u8, pnum: usize) -> String {
+        format!("k{}", (kb as usize + pnum) % 6)
+    }
+
+    fn prepare_request(id: u64, kb: u8, pnum: usize) -> PrepareRequest {
+        let mut dense = [0.0f32; 4];
+        dense[pnum % 4] = 1.0;
+        PrepareRequest {
+            tx_id: id,
+            coordinator: "coord".to_string(),
+            operations: vec![Transaction::Put { key: Self::key(kb, pnum), data: vec![1] }],
+            delta_embedding: SparseVector::from_dense(&dense),
+            timeout_ms: 5000,
+        }
     }
 
     /// "locks of completed transactions are released": after a completion the
@@ -354,71 +462,87 @@ impl<'a> Trial<'a> {
         self.check_no_locks(c, t, "completed-tx-holds-lock", &format!("after {how}"))
     }
 
-    fn exec(&mut self, c: &DistributedTxCoordinator, step: &Step, i: usize) -> Result<(), Violation> {
+    fn begin(&mut self, c: &DistributedTxCoordinator, t: u8, parts: Vec<usize>, kb: u8, i: usize) {
+        let ctx = self.ctx;
+        if self.recs.contains_key(&t) {
+            return;
+        }
+        let r = {
+            let _g = id_exclusive();
+            ctx.step_wall_ms(7);
+            let _ = tensor_chain::generate_tx_id();
+            ctx.step_wall_ms(-7);
+            c.begin(&"coord".to_string(), &parts)
+        };
+        self.touched.push(t);
+        match r {
+            Ok(tx) => {
+                if parts.len() > 3 {
+                    ctx.probe("wide_tx_begun");
+                }
+                ctx.event(&format!("s{i} begin t{t} n{} first_shard{} kb{kb}", parts.len(), parts[0]));
+                self.by_id.insert(tx.tx_id, t);
+                self.recs.insert(
+                    t,
+                    TxRec {
+                        id: tx.tx_id,
+                        parts: Arc::new(parts),
+                        kb,
+                        votes: BTreeMap::new(),
+                        last_vote: BTreeMap::new(),
+                        prepared_logged: false,
+                        outcome: None,
+                        volatile: false,
+                        loose: false,
+                        forgotten: false,
+                        abort_sent: false,
+                    },
+                );
+            },
+            Err(e) => ctx.event(&format!("s{i} begin t{t} failed: {e}")),
+        }
+    }
+
+    fn exec(&mut self, c: &Arc<DistributedTxCoordinator>, step: &Step, i: usize) -> Result<(), Violation> {
         let ctx = self.ctx;
         match step {
             Step::Begin { t, n, kb } => {
-                if self.recs.contains_key(t) {
-                    return Ok(());
-                }
                 let parts: Vec<usize> = (0..(*n).clamp(1, 3) as usize).collect();
-                let r = {
-                    let _g = id_exclusive();
-                    ctx.step_wall_ms(7);
-                    let _ = tensor_chain::generate_tx_id();
-                    ctx.step_wall_ms(-7);
-                    c.begin(&"coord".to_string(), &parts)
-                };
-                self.touched.push(*t);
-                match r {
-                    Ok(tx) => {
-                        self.by_id.insert(tx.tx_id, *t);
-                        self.recs.insert(
-                            *t,
-                            TxRec {
-                                id: tx.tx_id,
-                                parts,
-                                kb: *kb,
-                                votes: BTreeMap::new(),
-                                last_vote: BTreeMap::new(),
-                                prepared_logged: false,
-                                outcome: None,
-                                volatile: false,
-                                loose: false,
-                                forgotten: false,
-                                abort_sent: false,
-                            },
-                        );
-                        ctx.event(&format!("s{i} begin t{t} n{} kb{kb}", (*n).clamp(1, 3)));
-                    },
-                    Err(e) => ctx.event(&format!("s{i} begin t{t} failed: {e}")),
-                }
+                self.begin(c, *t, parts, *kb, i);
             },
+            Step::BeginWide { t, n, base, kb } => {
+                let n = (*n).clamp(1, 300_000) as usize;
+                let base = *base as usize;
+                let parts: Vec<usize> = (0..n).map(|j| base.wrapping_add(j)).collect();
+                self.begin(c, *t, parts, *kb, i);
+            },
+            Step::Par { threads, schedule, ahead } => self.par(c, threads, schedule, *ahead, i)?,
             Step::Vote { t, s, v } => {
                 let Some(rec) = self.recs.get(t).cloned() else { return Ok(()) };
-                let shard = *s as usize % rec.parts.len();
+                // participant number (selects the key) and its shard id
+                let pnum = *s as usize % rec.parts.len();
+                let shard = rec.parts[pnum];
                 let live_phase = c.get(rec.id).map(|x| x.phase);
                 let prev = rec.last_vote.get(&shard).cloned();
+                let numbering = self.case.handle_numbering;
+                let counter = self.next_handle.clone();
                 let fabricated_yes = |id: u64| PrepareVote::Yes {
                     // a handle nobody holds a lock under (late / duplicate messages take no lock)
-                    lock_handle: LockManager::new().try_lock(id, &[]).unwrap_or(0),
+                    lock_handle: Self::free_handle(numbering, &counter, id),
                     delta: DeltaVector::zero(0),
                 };
                 let mut real_lock: Option<u64> = None;
                 let first_yes = |me: &mut Self, real_lock: &mut Option<u64>| -> Result<PrepareVote, Violation> {
                     if live_phase == Some(TxPhase::Preparing) && prev.is_none() {
-                        let mut dense = [0.0f32; 4];
-                        dense[shard % 4] = 1.0;
-                        let req = PrepareRequest {
-                            tx_id: rec.id,
-                            coordinator: "coord".to_string(),
-                            operations: vec![Transaction::Put { key: Self::key(rec.kb, shard), data: vec![1] }],
-                            delta_embedding: SparseVector::from_dense(&dense),
-                            timeout_ms: 5000,
-                        };
-                        let vote = c.handle_prepare(&req);
-                        match &vote {
-                            PrepareVote::Yes { lock_handle, .. } => *real_lock = Some(*lock_handle),
+                        let mut vote = c.handle_prepare(&Self::prepare_request(rec.id, rec.kb, pnum));
+                        match &mut vote {
+                            PrepareVote::Yes { lock_handle, .. } => {
+                                *real_lock = Some(*lock_handle);
+                                if numbering == 1 {
+                                    // the participant names its lock by its own number
+                                    *lock_handle = counter.fetch_add(1, Ordering::Relaxed);
+                                }
+                            },
                             PrepareVote::Conflict { conflicting_tx, .. } => {
                                 me.ctx.probe("lock_conflict_vote");
                                 // "locks of completed transactions are released" / "forgotten
@@ -430,8 +554,8 @@ impl<'a> Trial<'a> {
                                         return Err(viol(
                                             "lock-left-behind",
                                             format!(
-                                                "prepare of t{t} shard {shard} on key {} conflicts with t{ot}, which is {}",
-                                                Self::key(rec.kb, shard),
+                                                "prepare of t{t} participant {pnum} on key {} conflicts with t{ot}, which is {}",
+                                                Self::key(rec.kb, pnum),
                                                 if o.forgotten { "forgotten" } else { "completed" }
                                             ),
                                         ));
@@ -469,7 +593,7 @@ impl<'a> Trial<'a> {
                     Err(VoteRecordError::WrongPhase { actual, .. }) => format!("wrongphase:{}", phase_name(*actual)),
                     Err(VoteRecordError::DuplicateVote { .. }) => "duplicate".to_string(),
                 };
-                ctx.event(&format!("s{i} vote t{t} sh{shard} {v:?} yes={is_yes} -> {res}{}", if alive { "" } else { " (node dead)" }));
+                ctx.event(&format!("s{i} vote t{t} p{pnum} {v:?} yes={is_yes} -> {res}{}", if alive { "" } else { " (node dead)" }));
                 match r {
                     Ok(p) => {
                         let rec = self.recs.get_mut(t).unwrap();
@@ -578,6 +702,224 @@ impl<'a> Trial<'a> {
         Ok(())
     }
 
+    /// A `Par` step: the threads' operations run concurrently on the coordinator
+    /// under the baton scheduler (switches at the harness's `c13.op` points and at
+    /// every `tensor_chain.` lock acquisition). The threads only call the
+    /// coordinator and note what it answered; the ledger is brought up to date
+    /// afterwards, in the order in which the calls returned — the same rules as
+    /// for the sequential steps.
+    fn par(&mut self, c: &Arc<DistributedTxCoordinator>, threads: &[Vec<POp>], schedule: &[u8], ahead: bool, i: usize) -> Result<(), Violation> {
+        let ctx = self.ctx;
+        let nthreads = threads.len().min(4);
+        if nthreads == 0 {
+            return Ok(());
+        }
+        let snapshot: Arc<BTreeMap<u8, ParTx>> = Arc::new(
+            self.recs
+                .iter()
+                .map(|(t, r)| {
+                    let voted = r.last_vote.keys().filter_map(|sh| sh.checked_sub(r.parts[0])).collect();
+                    (*t, ParTx { id: r.id, parts: r.parts.clone(), kb: r.kb, voted })
+                })
+                .collect(),
+        );
+        // transactions that were completed or forgotten before the step started
+        let done_before: BTreeSet<u8> = self.recs.iter().filter(|(_, r)| r.outcome.is_some() || r.forgotten).map(|(t, _)| *t).collect();
+        let results: Arc<Mutex<Vec<ParResult>>> = Arc::new(Mutex::new(Vec::new()));
+        let numbering = self.case.handle_numbering;
+        // (slot, participant number) -> (vote, handle of the real lock) prepared ahead of the threads
+        let mut prepared: BTreeMap<(u8, usize), (PrepareVote, Option<u64>)> = BTreeMap::new();
+        if ahead {
+            for op in threads.iter().take(nthreads).flatten() {
+                let POp::Vote { t, s, yes: true } = op else { continue };
+                let Some(tx) = snapshot.get(t) else { continue };
+                let pnum = *s as usize % tx.parts.len();
+                if tx.voted.contains(&pnum) || prepared.contains_key(&(*t, pnum)) || c.get(tx.id).map(|x| x.phase) != Some(TxPhase::Preparing) {
+                    continue;
+                }
+                let mut v = c.handle_prepare(&Self::prepare_request(tx.id, tx.kb, pnum));
+                let mut real_lock = None;
+                if let PrepareVote::Yes { lock_handle, .. } = &mut v {
+                    real_lock = Some(*lock_handle);
+                    if numbering == 1 {
+                        *lock_handle = self.next_handle.fetch_add(1, Ordering::Relaxed);
+                    }
+                }
+                prepared.insert((*t, pnum), (v, real_lock));
+            }
+            ctx.probe("par_votes_prepared_ahead");
+        }
+        let prepared = Arc::new(prepared);
+        // the case's schedule; past its end every pick is STAY (the running thread goes on
+        // until it is done or has to wait for a lock, then the lowest runnable one: the
+        // scheduler never re-picks a thread that spins on a held lock before another ran)
+        let schedule: &[u8] = match &self.par_override {
+            Some((at, sc)) if *at == i => sc,
+            _ => schedule,
+        };
+        let sched_full = schedule.to_vec();
+        let bodies: Vec<crate::sched::Body> = threads
+            .iter()
+            .take(nthreads)
+            .enumerate()
+            .map(|(k, prog)| {
+                let prog = prog.clone();
+                let c = c.clone();
+                let snapshot = snapshot.clone();
+                let results = results.clone();
+                let counter = self.next_handle.clone();
+                let ctx = ctx.clone();
+                let prepared = prepared.clone();
+                Box::new(move || {
+                    let mut sent: BTreeSet<(u8, usize)> = BTreeSet::new();
+                    for op in &prog {
+                        let slot = match op {
+                            POp::Vote { t, .. } | POp::Commit { t } | POp::Abort { t } => *t,
+                        };
+                        let Some(tx) = snapshot.get(&slot) else { continue };
+                        let mut res = ParResult { thread: k, op: op.clone(), vote: None, vote_res: None, ok: false, alive: true };
+                        match op {
+                            POp::Vote { s, yes, .. } => {
+                                let pnum = *s as usize % tx.parts.len();
+                                let shard = tx.parts[pnum];
+                                let mut real_lock = None;
+                                let vote = if !*yes {
+                                    PrepareVote::No { reason: "scripted".to_string() }
+                                } else if let (Some((v, real)), true) = (prepared.get(&(slot, pnum)), sent.insert((slot, pnum))) {
+                                    real_lock = *real;
+                                    v.clone()
+                                } else if !ahead && !tx.voted.contains(&pnum) && c.get(tx.id).map(|x| x.phase) == Some(TxPhase::Preparing) {
+                                    let mut v = c.handle_prepare(&Self::prepare_request(tx.id, tx.kb, pnum));
+                                    if let PrepareVote::Yes { lock_handle, .. } = &mut v {
+                                        real_lock = Some(*lock_handle);
+                                        if numbering == 1 {
+                                            *lock_handle = counter.fetch_add(1, Ordering::Relaxed);
+                                        }
+                                    }
+                                    v
+                                } else {
+                                    PrepareVote::Yes { lock_handle: Self::free_handle(numbering, &counter, tx.id), delta: DeltaVector::zero(0) }
+                                };
+                                let r = c.record_vote(tx.id, shard, vote.clone());
+                                res.alive = !ctx.is_dead(NODE);
+                                if r.is_err() {
+                                    // the scripted participant gives up the lock of a vote the coordinator refused
+                                    if let Some(h) = real_lock {
+                                        c.lock_manager().release_by_handle(h);
+                                    }
+                                }
+                                res.ok = r.is_ok();
+                                res.vote = Some((pnum, shard, vote, real_lock));
+                                res.vote_res = Some(r);
+                            },
+                            POp::Commit { .. } => {
+                                res.ok = c.commit(tx.id).is_ok();
+                                res.alive = !ctx.is_dead(NODE);
+                            },
+                            POp::Abort { .. } => {
+                                res.ok = c.abort(tx.id, "scripted abort").is_ok();
+                                res.alive = !ctx.is_dead(NODE);
+                            },
+                        }
+                        results.lock().unwrap().push(res);
+                        crate::sched::yield_point("c13.op");
+                    }
+                }) as crate::sched::Body
+            })
+            .collect();
+        let sr = crate::sched::run_threads(ctx, &sched_full, 200_000, bodies);
+        if sr.exhausted || !sr.panics.is_empty() {
+            self.harness_error = Some(format!("scheduler: exhausted={} steps={} panics={:?}", sr.exhausted, sr.steps, sr.panics));
+            return Ok(());
+        }
+        self.par_steps.push((i, nthreads, sr.steps));
+        ctx.probe("par_block_run");
+        if sr.switches > 0 {
+            ctx.probe("par_threads_interleaved");
+        }
+        for (site, n) in &sr.preempted_at {
+            if *n > 0 {
+                match *site {
+                    "tensor_chain.lock" => ctx.probe("par_preempted_at_lock_acquisition"),
+                    "tensor_chain.lock.wait" => ctx.probe("par_preempted_while_waiting_for_held_lock"),
+                    _ => {},
+                }
+            }
+        }
+        ctx.event(&format!("s{i} par: {nthreads} threads, {} scheduler steps, {} switches", sr.steps, sr.switches));
+        let results = std::mem::take(&mut *results.lock().unwrap());
+        let mut voters_of: BTreeMap<u8, BTreeSet<usize>> = BTreeMap::new();
+        for r in results {
+            let k = r.thread;
+            let dead = if r.alive { "" } else { " (node dead)" };
+            match &r.op {
+                POp::Vote { t, .. } => {
+                    let (pnum, shard, vote, _real) = r.vote.clone().unwrap();
+                    let (is_yes, handle) = vote_yes_handle(&vote);
+                    self.touched.push(*t);
+                    let vr = r.vote_res.unwrap();
+                    let txt = match &vr {
+                        Ok(None) => "accepted".to_string(),
+                        Ok(Some(p)) => format!("accepted->{}", phase_name(*p)),
+                        Err(VoteRecordError::TxNotFound(_)) => "notfound".to_string(),
+                        Err(VoteRecordError::WrongPhase { actual, .. }) => format!("wrongphase:{}", phase_name(*actual)),
+                        Err(VoteRecordError::DuplicateVote { .. }) => "duplicate".to_string(),
+                    };
+                    ctx.event(&format!("s{i} th{k} vote t{t} p{pnum} yes={is_yes} -> {txt}{dead}"));
+                    if let PrepareVote::Conflict { conflicting_tx, .. } = &vote {
+                        ctx.probe("lock_conflict_vote");
+                        // "locks of completed transactions are released" / "forgotten without
+                        //  leaving locks behind" — only against transactions that were completed
+                        //  or forgotten before the threads started (one completed by another
+                        //  thread of this step may still have held its lock when this prepare ran)
+                        if let Some(ot) = self.slot_of(*conflicting_tx) {
+                            if done_before.contains(&ot) {
+                                return Err(viol(
+                                    "lock-left-behind",
+                                    format!(
+                                        "prepare of t{t} participant {pnum} (thread {k}) conflicts with t{ot}, which was {} before the threads started",
+                                        if self.recs[&ot].forgotten { "forgotten" } else { "completed" }
+                                    ),
+                                ));
+                            }
+                        }
+                    }
+                    match vr {
+                        Ok(p) => {
+                            let rec = self.recs.get_mut(t).unwrap();
+                            rec.votes.entry(shard).or_insert((is_yes, handle));
+                            rec.last_vote.insert(shard, vote);
+                            voters_of.entry(*t).or_default().insert(k);
+                            if r.alive && p == Some(TxPhase::Prepared) {
+                                rec.prepared_logged = true;
+                                ctx.probe("prepared_acked");
+                                if voters_of[t].len() >= 2 {
+                                    ctx.probe("par_prepared_by_votes_of_two_threads");
+                                }
+                            }
+                        },
+                        Err(e) => match e {
+                            VoteRecordError::TxNotFound(_) => ctx.probe("vote_logged_for_unknown_tx"),
+                            VoteRecordError::WrongPhase { .. } => ctx.probe("late_vote"),
+                            VoteRecordError::DuplicateVote { .. } => ctx.probe("duplicate_vote"),
+                        },
+                    }
+                },
+                POp::Commit { t } | POp::Abort { t } => {
+                    let committed = matches!(r.op, POp::Commit { .. });
+                    let how = if committed { "commit" } else { "abort" };
+                    self.touched.push(*t);
+                    ctx.event(&format!("s{i} th{k} {how} t{t} -> {}{dead}", if r.ok { "ok" } else { "err" }));
+                    if r.ok && r.alive {
+                        ctx.probe("par_completion");
+                        self.on_completed(c, *t, committed, true, how)?;
+                    }
+                },
+            }
+        }
+        Ok(())
+    }
+
     /// One step towards completion of a pending transaction.
     fn drive(&mut self, c: &DistributedTxCoordinator, t: u8, phase: TxPhase, what: &str) -> Result<(), Violation> {
         let id = self.recs[&t].id;
@@ -661,11 +1003,11 @@ impl<'a> Trial<'a> {
     /// Restart the coordinator. `crash` = Some(cut) after a crash (power-loss model).
     fn restart(
         &mut self,
-        old: DistributedTxCoordinator,
+        old: Arc<DistributedTxCoordinator>,
         crash: Option<u64>,
         next: Option<&CrashSpec>,
         what: &str,
-    ) -> Result<DistributedTxCoordinator, Violation> {
+    ) -> Result<Arc<DistributedTxCoordinator>, Violation> {
         let ctx = self.ctx;
         drop(old);
         if let Some(cut) = crash {
@@ -674,7 +1016,12 @@ impl<'a> Trial<'a> {
             if let Some(ev) = ctx.crash_fired() {
                 ctx.fp(&format!("crash:{}", ev.kind));
                 match ev.kind {
-                    "write" => ctx.probe("crash_inside_log_write"),
+                    "write" => {
+                        ctx.probe("crash_inside_log_write");
+                        if ev.len >= 64 * 1024 {
+                            ctx.probe("crash_inside_log_record_of_64KiB_or_more");
+                        }
+                    },
                     "fsync" => ctx.probe("crash_before_fsync"),
                     "ftruncate" => ctx.probe("crash_inside_tail_repair"),
                     _ => {},
@@ -693,6 +1040,8 @@ impl<'a> Trial<'a> {
             self.touched.clear();
         }
         self.inc += 1;
+        // a new process: the participants' handle numbering starts again
+        self.next_handle.store(1, Ordering::Relaxed);
         if self.inc >= 2 {
             ctx.probe("second_restart");
         }
@@ -703,7 +1052,13 @@ impl<'a> Trial<'a> {
             ctx.arm_crash(NODE, n.nth, n.bytes);
         }
         let raw = std::fs::read(&self.wal).unwrap_or_default();
-        let (nframes, frames_end) = frames(&raw);
+        let (nframes, frames_end, longest) = frames(&raw);
+        if longest >= 64 * 1024 {
+            ctx.probe("restart_over_log_record_of_64KiB_or_more");
+        }
+        if longest >= 512 * 1024 {
+            ctx.probe("restart_over_log_record_of_512KiB_or_more");
+        }
         let torn = frames_end < raw.len();
         if let Some(l) = self.torn_open_len.take() {
             if raw.len() as u64 > l {
@@ -716,7 +1071,7 @@ impl<'a> Trial<'a> {
         let wal = match TxWal::open(&self.wal) {
             Ok(w) => w,
             // the (next) crash fired inside this very open: what the dead process sees does not count
-            Err(_) if !self.alive() => return Ok(Self::placeholder()),
+            Err(_) if !self.alive() => return Ok(Arc::new(Self::placeholder())),
             Err(e) => {
                 return Err(viol("wal-open-failed", format!("{what}: TxWal::open on a log the coordinator wrote itself failed: {e}")))
             },
@@ -726,7 +1081,7 @@ impl<'a> Trial<'a> {
         }
         // the log as recovery will see it (used to decide what the call cut by the crash had logged)
         let entries = wal.replay();
-        let c = Self::placeholder().with_wal(wal);
+        let c = Arc::new(Self::placeholder().with_wal(wal));
         let restores = entries.as_ref().map(|e| {
             let st = TxRecoveryState::from_entries(e);
             !(st.prepared_txs.is_empty() && st.committing_txs.is_empty() && st.aborting_txs.is_empty())
@@ -795,6 +1150,7 @@ impl<'a> Trial<'a> {
                 }
             }
         }
+        self.check_orphaned_locks(&entries, what)?;
         let mut pend: Vec<String> = Vec::new();
         for (t, r) in &self.recs {
             if let Some(tx) = c.get(r.id) {
@@ -817,6 +1173,66 @@ impl<'a> Trial<'a> {
         }
         self.check_after_restart(&c, what)?;
         Ok(c)
+    }
+
+    /// "locks of completed transactions are released", decided on what recovery
+    /// reports: the lock manager of a restarted coordinator is new, so the only
+    /// trace of a lock that a completed transaction took and never gave back is the
+    /// log, and the only thing recovery does about it is to name it as orphaned
+    /// (`TxRecoveryState::orphaned_locks`, which `recover_from_wal` force-releases).
+    /// For every transaction whose completion is logged, every lock its accepted YES
+    /// votes named is either logged as released by that transaction (`LockRelease`
+    /// with its id, or `AllLocksReleased`) or reported as orphaned for it. Handle
+    /// values alone do not identify a lock: other transactions carry the same
+    /// values under participant numbering (`handle_numbering = 1`).
+    fn check_orphaned_locks(&mut self, entries: &[TxWalEntry], what: &str) -> Result<(), Violation> {
+        let st = TxRecoveryState::from_entries(entries);
+        let orphans: BTreeSet<(u64, u64)> = st.orphaned_locks.iter().map(|o| (o.tx_id, o.lock_handle)).collect();
+        let mut released: BTreeSet<(u64, u64)> = BTreeSet::new();
+        let mut fully: BTreeSet<u64> = BTreeSet::new();
+        let mut seen_handles: BTreeMap<u64, u64> = BTreeMap::new();
+        for e in entries {
+            match e {
+                TxWalEntry::LockRelease { tx_id, lock_handle } => {
+                    released.insert((*tx_id, *lock_handle));
+                },
+                TxWalEntry::AllLocksReleased { tx_id } => {
+                    fully.insert(*tx_id);
+                },
+                TxWalEntry::PrepareVote { tx_id, vote: tensor_chain::PrepareVoteKind::Yes { lock_handle }, .. } => {
+                    if let Some(other) = seen_handles.insert(*lock_handle, *tx_id) {
+                        if other != *tx_id {
+                            self.ctx.probe("lock_handle_value_reused_by_another_tx");
+                        }
+                    }
+                },
+                _ => {},
+            }
+        }
+        for (t, rec) in &self.recs {
+            if rec.outcome.is_none() || fully.contains(&rec.id) {
+                continue;
+            }
+            for (shard, (yes, h)) in &rec.votes {
+                if !*yes || released.contains(&(rec.id, *h)) {
+                    continue;
+                }
+                self.ctx.probe("unreleased_lock_of_completed_tx_at_restart");
+                if released.iter().any(|(id, h2)| h2 == h && *id != rec.id) {
+                    self.ctx.probe("unreleased_lock_shares_handle_value_with_released_lock");
+                }
+                if !orphans.contains(&(rec.id, *h)) {
+                    return Err(viol(
+                        "completed-tx-lock-not-released",
+                        format!(
+                            "{what}: t{t} is completed in the log; the lock of its YES vote from shard {shard} has neither a LockRelease record of t{t} nor is t{t} marked AllLocksReleased, and recovery does not report it as orphaned ({} orphaned locks reported), so nothing releases it",
+                            orphans.len()
+                        ),
+                    ));
+                }
+            }
+        }
+        Ok(())
     }
 
     /// The property, clause by clause, on a freshly restarted coordinator.
@@ -916,10 +1332,11 @@ impl<'a> Trial<'a> {
                                 format!("{what}: t{t} came back with the right yes/no answers but different lock handles than the votes it had collected"),
                             ));
                         }
-                        if tx.participants != rec.parts {
+                        if tx.participants != *rec.parts {
+                            let show = |p: &[usize]| format!("{} participants starting {:?}", p.len(), &p[..p.len().min(4)]);
                             return Err(viol(
                                 "prepared-tx-participants-differ",
-                                format!("{what}: t{t} came back with participants {:?}, begun with {:?}", tx.participants, rec.parts),
+                                format!("{what}: t{t} came back with {}, begun with {}", show(&tx.participants), show(&rec.parts)),
                             ));
                         }
                     },
@@ -951,14 +1368,14 @@ impl<'a> Trial<'a> {
         DistributedTxCoordinator::new(ConsensusManager::new(ConsensusConfig::default()), DistributedTxConfig::default())
     }
 
-    fn start(&mut self) -> Result<DistributedTxCoordinator, Violation> {
+    fn start(&mut self) -> Result<Arc<DistributedTxCoordinator>, Violation> {
         let wal = match TxWal::open(&self.wal) {
             Ok(w) => w,
             // the crash fired inside this very open: what the dead process sees does not count
-            Err(_) if !self.alive() => return Ok(Self::placeholder()),
+            Err(_) if !self.alive() => return Ok(Arc::new(Self::placeholder())),
             Err(e) => return Err(viol("wal-open-failed", format!("first open: {e}"))),
         };
-        let c = Self::placeholder().with_wal(wal);
+        let c = Arc::new(Self::placeholder().with_wal(wal));
         // empty log: no transaction is restored, no id is generated
         let r = c.recover_from_wal();
         if self.alive() {
@@ -1010,6 +1427,12 @@ impl<'a> Trial<'a> {
             if let Err(v) = self.exec(&c, &steps[i], i) {
                 return (Err(v), syslog);
             }
+            if self.harness_error.is_some() {
+                return (Ok(()), syslog);
+            }
+            if !self.alive() && matches!(steps[i], Step::Par { .. }) {
+                ctx.probe("crash_inside_par_block");
+            }
             if self.alive() && steps[i] == Step::Restart {
                 c = match self.restart(c, None, None, &format!("clean restart at step {i}")) {
                     Ok(c) => c,
@@ -1024,6 +1447,14 @@ impl<'a> Trial<'a> {
             i += 1;
         }
         (Ok(()), syslog)
+    }
+}
+
+fn mode_name(m: &Mode) -> &'static str {
+    match m {
+        Mode::Enumerate => "enumerate",
+        Mode::Chain(_) => "chain",
+        Mode::Sample { .. } => "sample",
     }
 }
 
@@ -1043,6 +1474,8 @@ fn step_kind(s: &Step) -> &'static str {
         Step::DriveAll => "driveall",
         Step::Recover => "recover",
         Step::Restart => "restart",
+        Step::BeginWide { .. } => "begin-wide",
+        Step::Par { .. } => "par",
     }
 }
 
@@ -1069,6 +1502,251 @@ fn full_steps(case: &Case) -> Vec<Step> {
     v.push(Step::Commit { t: EPILOGUE_SLOT });
     v.push(Step::Restart);
     v
+}
+
+/// The round-1 shape: per-transaction scripts, randomly interleaved, then sprinkled with the other step kinds.
+fn gen_classic(rng: &mut Rng) -> Case {
+    // per-transaction scripts, randomly interleaved, then sprinkled with the other step kinds
+    let ntx = rng.range(1, 4) as u8;
+    let mut scripts: Vec<Vec<Step>> = Vec::new();
+    for t in 0..ntx {
+        let n = rng.range(1, 3) as u8;
+        let kb = rng.below(6) as u8;
+        let mut s = vec![Step::Begin { t, n, kb }];
+        let mut order: Vec<u8> = (0..n).collect();
+        for i in (1..order.len()).rev() {
+            order.swap(i, rng.usize_below(i + 1));
+        }
+        let all_yes = rng.chance(3, 4);
+        let nvotes = if rng.chance(5, 6) { n } else { rng.below(u64::from(n)) as u8 };
+        for (j, sh) in order.iter().enumerate() {
+            if j as u8 >= nvotes {
+                break;
+            }
+            let v = if all_yes || rng.chance(1, 2) { V::Yes } else { V::No };
+            s.push(Step::Vote { t, s: *sh, v });
+            if rng.chance(1, 6) {
+                s.push(Step::Vote { t, s: *sh, v: if rng.chance(2, 3) { V::Resend } else { V::Flip } });
+            }
+        }
+        match rng.below(10) {
+            0..=5 => s.push(Step::Commit { t }),
+            6..=7 => s.push(Step::Abort { t }),
+            _ => {},
+        }
+        // late messages and second decisions
+        if rng.chance(1, 4) {
+            s.push(Step::Vote { t, s: rng.below(u64::from(n)) as u8, v: *rng.pick(&[V::Yes, V::No, V::Resend, V::Flip]) });
+        }
+        if rng.chance(1, 4) {
+            s.push(if rng.chance(1, 2) { Step::Abort { t } } else { Step::Commit { t } });
+        }
+        scripts.push(s);
+    }
+    let mut steps: Vec<Step> = Vec::new();
+    let mut idx = vec![0usize; scripts.len()];
+    loop {
+        let live: Vec<usize> = (0..scripts.len()).filter(|k| idx[*k] < scripts[*k].len()).collect();
+        if live.is_empty() {
+            break;
+        }
+        // mostly keep working on the lowest unfinished transaction, sometimes another one
+        let k = if rng.chance(2, 3) { live[0] } else { *rng.pick(&live) };
+        steps.push(scripts[k][idx[k]].clone());
+        idx[k] += 1;
+        match rng.below(40) {
+            0 => steps.push(Step::Advance { ms: *rng.pick(&[1u32, 200, 3000, 6000, 31_000]) }),
+            1 => steps.push(Step::Sweep),
+            2 => {
+                steps.push(Step::Advance { ms: 6000 });
+                steps.push(Step::Sweep);
+            },
+            3 => steps.push(Step::Aborts),
+            4 => steps.push(Step::Decide),
+            5 => steps.push(Step::Recover),
+            6 | 7 => steps.push(Step::Restart),
+            8 => steps.push(Step::DriveAll),
+            9 => {
+                steps.push(Step::Sweep);
+                steps.push(Step::Aborts);
+            },
+            _ => {},
+        }
+    }
+    let recover_after_restart = rng.chance(1, 4);
+    let mode = if rng.chance(3, 4) {
+        Mode::Enumerate
+    } else {
+        let n = rng.range(1, 3);
+        let span = 2 * steps.len() as u64 + 8;
+        Mode::Chain(
+            (0..n)
+                .map(|k| CrashSpec {
+                    nth: if k == 0 { rng.below(span) } else { rng.below(12) },
+                    bytes: if rng.chance(2, 3) { Some(rng.range(1, 30) as usize) } else { None },
+                    cut: rng.below(6),
+                })
+                .collect(),
+        )
+    };
+    let handle_numbering = u8::from(rng.chance(1, 2));
+    Case { steps, recover_after_restart, mode, handle_numbering }
+}
+
+fn gen_chain(rng: &mut Rng, nsteps: usize) -> Mode {
+    let n = rng.range(1, 3);
+    let span = 2 * nsteps as u64 + 8;
+    Mode::Chain(
+        (0..n)
+            .map(|k| CrashSpec {
+                nth: if k == 0 { rng.below(span) } else { rng.below(12) },
+                bytes: if rng.chance(2, 3) { Some(rng.range(1, 30) as usize) } else { None },
+                cut: rng.below(6),
+            })
+            .collect(),
+    )
+}
+
+/// Unusual-size input: a round-1 program into which one transaction with a very
+/// wide participant list is begun (a TxBegin record of 64 KiB - 1 MiB in the
+/// middle of the log; its timeout gives an AbortIntent record of the same size).
+/// Crash points are sampled: one execution rewrites and rereads the long record.
+fn gen_wide(rng: &mut Rng, largest: bool) -> Case {
+    let mut case = gen_classic(rng);
+    // bitcode packs a participant list by the magnitude of its largest id:
+    // 2 bytes per id below 2^16, 4 below 2^32, 8 above
+    let (n, base): (u32, u64) = match if largest { 19 } else { rng.below(20) } {
+        0..=6 => (rng.range(32_800, 34_000) as u32, 0),
+        7..=10 => (rng.range(8_300, 9_500) as u32, 1 << 33),
+        11..=13 => (rng.range(17_000, 20_000) as u32, 70_000),
+        14..=16 => (rng.range(60_000, 65_000) as u32, 100_000),
+        17..=18 => (rng.range(30_000, 40_000) as u32, 1 << 40),
+        _ => (rng.range(250_000, 262_000) as u32, 1 << 33),
+    };
+    const WIDE_SLOT: u8 = 9;
+    let at = rng.usize_below(case.steps.len() + 1);
+    case.steps.insert(at, Step::BeginWide { t: WIDE_SLOT, n, base, kb: rng.below(6) as u8 });
+    // a few of its participants vote; now and then it is aborted by hand
+    let mut pos = at + 1;
+    for _ in 0..rng.below(3) {
+        pos = rng.range(pos as u64, case.steps.len() as u64) as usize;
+        case.steps.insert(pos, Step::Vote { t: WIDE_SLOT, s: rng.below(4) as u8, v: if rng.chance(3, 4) { V::Yes } else { V::No } });
+        pos += 1;
+    }
+    if rng.chance(1, 5) {
+        pos = rng.range(pos as u64, case.steps.len() as u64) as usize;
+        case.steps.insert(pos, Step::Abort { t: WIDE_SLOT });
+    }
+    case.mode = if rng.chance(3, 4) {
+        Mode::Sample { seed: rng.next_u64(), points: rng.range(10, 22) as u32 }
+    } else {
+        gen_chain(rng, case.steps.len())
+    };
+    case
+}
+
+/// A schedule for a `Par` step: either sticky random picks, or "run to completion
+/// with 1-3 preemptions" (every entry STAY except a few, within the first `span`
+/// schedule points) — most atomicity bugs need one or two switches at the right point.
+fn gen_par_schedule(rng: &mut Rng, span: usize) -> Vec<u8> {
+    if rng.chance(1, 2) {
+        let sticky = *rng.pick(&[60u64, 80, 90, 95]);
+        let len = rng.range(span as u64, 3 * span as u64) as usize;
+        crate::sched::gen_schedule(rng, len, sticky)
+    } else {
+        let mut v = vec![crate::sched::STAY; span];
+        // which thread starts
+        v[0] = rng.below(16) as u8;
+        for _ in 0..rng.range(1, 3) {
+            let at = rng.usize_below(span);
+            v[at] = rng.below(16) as u8;
+        }
+        v
+    }
+}
+
+/// Scheduled threads: 1-3 transactions whose participants' votes, and now and
+/// then the decision, are issued by 2-4 threads concurrently; restarts (clean,
+/// and at sampled crash points) follow.
+fn gen_par(rng: &mut Rng) -> Case {
+    let ntx = rng.range(1, 3) as u8;
+    let per_tx_block = rng.chance(1, 2);
+    let mut steps: Vec<Step> = Vec::new();
+    let mut pending: Vec<(u8, u8)> = Vec::new();
+    let mut open: Vec<u8> = Vec::new();
+    let block = |rng: &mut Rng, votes: &mut Vec<(u8, u8)>, txs: &[u8]| -> Step {
+        let k = *rng.pick(&[2usize, 2, 2, 2, 2, 3, 3, 3, 4, 4]);
+        let mut threads: Vec<Vec<POp>> = vec![Vec::new(); k];
+        // every participant's messages come from one thread (a participant is sequential);
+        // mostly the participants of a transaction are spread over the threads
+        let off = rng.usize_below(k);
+        for (t, s) in votes.drain(..) {
+            let th = if rng.chance(3, 4) { (off + s as usize) % k } else { rng.usize_below(k) };
+            threads[th].push(POp::Vote { t, s, yes: rng.chance(11, 12) });
+            if rng.chance(1, 10) {
+                threads[th].push(POp::Vote { t, s, yes: rng.chance(3, 4) });
+            }
+        }
+        for t in txs {
+            match rng.below(10) {
+                0 | 1 => threads[rng.usize_below(k)].push(POp::Commit { t: *t }),
+                2 => threads[rng.usize_below(k)].push(POp::Abort { t: *t }),
+                3 => {
+                    // both decisions race
+                    let a = rng.usize_below(k);
+                    threads[a].push(POp::Commit { t: *t });
+                    threads[(a + 1) % k].push(POp::Abort { t: *t });
+                },
+                _ => {},
+            }
+        }
+        let ahead = rng.chance(2, 3);
+        Step::Par { threads, schedule: gen_par_schedule(rng, if ahead { 24 } else { 60 }), ahead }
+    };
+    for t in 0..ntx {
+        let n = rng.range(2, 3) as u8;
+        steps.push(Step::Begin { t, n, kb: rng.below(6) as u8 });
+        for s in 0..n {
+            if rng.chance(1, 5) {
+                steps.push(Step::Vote { t, s, v: V::Yes });
+            } else {
+                pending.push((t, s));
+            }
+        }
+        open.push(t);
+        if per_tx_block {
+            steps.push(block(rng, &mut pending, &[t]));
+        }
+    }
+    if !per_tx_block {
+        steps.push(block(rng, &mut pending, &open));
+    }
+    // what follows the threads: nothing (the epilogue restarts), a clean restart, decisions
+    for t in &open {
+        match rng.below(12) {
+            0 | 1 => steps.push(Step::Commit { t: *t }),
+            2 => steps.push(Step::Abort { t: *t }),
+            3 | 4 => steps.push(Step::Restart),
+            5 => {
+                steps.push(Step::Restart);
+                // the decisions race after the restart
+                steps.push(Step::Par {
+                    threads: vec![vec![POp::Commit { t: *t }], vec![POp::Abort { t: *t }]],
+                    schedule: gen_par_schedule(rng, 16),
+                    ahead: false,
+                });
+            },
+            6 => steps.push(Step::DriveAll),
+            _ => {},
+        }
+    }
+    let recover_after_restart = rng.chance(1, 4);
+    let mode = match rng.below(8) {
+        0..=4 => Mode::Sample { seed: rng.next_u64(), points: rng.range(16, 40) as u32 },
+        5 => Mode::Sample { seed: 0, points: 0 },
+        _ => gen_chain(rng, 4 * steps.len()),
+    };
+    Case { steps, recover_after_restart, mode, handle_numbering: u8::from(rng.chance(1, 2)) }
 }
 
 fn sample_offsets(len: usize) -> Vec<usize> {
@@ -1099,107 +1777,35 @@ impl Scenario for C13 {
     }
     fn runs(&self, tier: Tier) -> u64 {
         match tier {
-            Tier::Quick => 700,
+            Tier::Quick => 900,
             Tier::Thorough => 15_000,
         }
     }
 
-    fn generate(&self, rng: &mut Rng, _tier: Tier, _index: u64) -> Case {
-        // per-transaction scripts, randomly interleaved, then sprinkled with the other step kinds
-        let ntx = rng.range(1, 4) as u8;
-        let mut scripts: Vec<Vec<Step>> = Vec::new();
-        for t in 0..ntx {
-            let n = rng.range(1, 3) as u8;
-            let kb = rng.below(6) as u8;
-            let mut s = vec![Step::Begin { t, n, kb }];
-            let mut order: Vec<u8> = (0..n).collect();
-            for i in (1..order.len()).rev() {
-                order.swap(i, rng.usize_below(i + 1));
-            }
-            let all_yes = rng.chance(3, 4);
-            let nvotes = if rng.chance(5, 6) { n } else { rng.below(u64::from(n)) as u8 };
-            for (j, sh) in order.iter().enumerate() {
-                if j as u8 >= nvotes {
-                    break;
-                }
-                let v = if all_yes || rng.chance(1, 2) { V::Yes } else { V::No };
-                s.push(Step::Vote { t, s: *sh, v });
-                if rng.chance(1, 6) {
-                    s.push(Step::Vote { t, s: *sh, v: if rng.chance(2, 3) { V::Resend } else { V::Flip } });
-                }
-            }
-            match rng.below(10) {
-                0..=5 => s.push(Step::Commit { t }),
-                6..=7 => s.push(Step::Abort { t }),
-                _ => {},
-            }
-            // late messages and second decisions
-            if rng.chance(1, 4) {
-                s.push(Step::Vote { t, s: rng.below(u64::from(n)) as u8, v: *rng.pick(&[V::Yes, V::No, V::Resend, V::Flip]) });
-            }
-            if rng.chance(1, 4) {
-                s.push(if rng.chance(1, 2) { Step::Abort { t } } else { Step::Commit { t } });
-            }
-            scripts.push(s);
+    fn generate(&self, rng: &mut Rng, _tier: Tier, index: u64) -> Case {
+        match index % 8 {
+            3 => gen_wide(rng, (index / 8) % 12 == 0),
+            1 | 5 => gen_par(rng),
+            _ => gen_classic(rng),
         }
-        let mut steps: Vec<Step> = Vec::new();
-        let mut idx = vec![0usize; scripts.len()];
-        loop {
-            let live: Vec<usize> = (0..scripts.len()).filter(|k| idx[*k] < scripts[*k].len()).collect();
-            if live.is_empty() {
-                break;
-            }
-            // mostly keep working on the lowest unfinished transaction, sometimes another one
-            let k = if rng.chance(2, 3) { live[0] } else { *rng.pick(&live) };
-            steps.push(scripts[k][idx[k]].clone());
-            idx[k] += 1;
-            match rng.below(40) {
-                0 => steps.push(Step::Advance { ms: *rng.pick(&[1u32, 200, 3000, 6000, 31_000]) }),
-                1 => steps.push(Step::Sweep),
-                2 => {
-                    steps.push(Step::Advance { ms: 6000 });
-                    steps.push(Step::Sweep);
-                },
-                3 => steps.push(Step::Aborts),
-                4 => steps.push(Step::Decide),
-                5 => steps.push(Step::Recover),
-                6 | 7 => steps.push(Step::Restart),
-                8 => steps.push(Step::DriveAll),
-                9 => {
-                    steps.push(Step::Sweep);
-                    steps.push(Step::Aborts);
-                },
-                _ => {},
-            }
-        }
-        let recover_after_restart = rng.chance(1, 4);
-        let mode = if rng.chance(3, 4) {
-            Mode::Enumerate
-        } else {
-            let n = rng.range(1, 3);
-            let span = 2 * steps.len() as u64 + 8;
-            Mode::Chain(
-                (0..n)
-                    .map(|k| CrashSpec {
-                        nth: if k == 0 { rng.below(span) } else { rng.below(12) },
-                        bytes: if rng.chance(2, 3) { Some(rng.range(1, 30) as usize) } else { None },
-                        cut: rng.below(6),
-                    })
-                    .collect(),
-            )
-        };
-        Case { steps, recover_after_restart, mode }
     }
 
     fn run(&self, case: &Case, ctx: &Arc<RunCtx>) -> RunOut {
         init_process();
+        // threads of a `Par` step are switched only at this scenario's own points and at
+        // tensor_chain's lock acquisitions (see sched::Baton::allow)
+        crate::sched::set_allowed_sites(&["c13.", "tensor_chain."]);
         let mut out = RunOut::default();
-        ctx.fp(&format!("rec{}:{}", case.recover_after_restart, case.mode == Mode::Enumerate));
+        ctx.fp(&format!("rec{}:{}:h{}", case.recover_after_restart, mode_name(&case.mode), case.handle_numbering));
+        if case.handle_numbering == 1 {
+            ctx.probe("participant_numbered_handles");
+        }
         match &case.mode {
             Mode::Chain(specs) => {
                 let mut t = Trial::new(ctx, case, 0);
                 let (v, _) = t.run(specs, false);
                 out.observations.append(&mut t.observations);
+                out.harness_error = t.harness_error.take();
                 out.inner_evals = 1;
                 out.nontrivial = t.crashes_fired > 0;
                 ctx.probe("chain_run");
@@ -1217,10 +1823,12 @@ impl Scenario for C13 {
                 }
                 t.cleanup();
             },
-            Mode::Enumerate => {
+            Mode::Enumerate | Mode::Sample { .. } => {
                 let mut t = Trial::new(ctx, case, 0);
                 let (v, syslog) = t.run(&[], true);
                 out.observations.append(&mut t.observations);
+                out.harness_error = t.harness_error.take();
+                let par_steps = std::mem::take(&mut t.par_steps);
                 t.cleanup();
                 out.inner_evals = 1;
                 ctx.lock().record_sys = false;
@@ -1229,9 +1837,12 @@ impl Scenario for C13 {
                     out.nontrivial = true;
                     return out;
                 }
-                let mut tag = 1;
+                if out.harness_error.is_some() {
+                    return out;
+                }
+                let mut all_points: Vec<Vec<CrashSpec>> = Vec::new();
                 for (k, (_step, ev)) in syslog.iter().enumerate() {
-                    let mut points: Vec<Vec<CrashSpec>> = Vec::new();
+                    let points = &mut all_points;
                     let one = |bytes: Option<usize>, cut: u64| vec![CrashSpec { nth: k as u64, bytes, cut }];
                     points.push(one(None, 0));
                     points.push(one(None, 1));
@@ -1251,27 +1862,108 @@ impl Scenario for C13 {
                     } else {
                         points.push(one(None, 5));
                     }
-                    for specs in points {
-                        let mut t = Trial::new(ctx, case, tag);
-                        tag += 1;
-                        ctx.event(&format!("--- crash point {specs:?}"));
-                        let (v, _) = t.run(&specs, false);
-                        for o in t.observations.drain(..) {
-                            if !out.observations.contains(&o) {
-                                out.observations.push(o);
-                            }
+                }
+                if let Mode::Sample { seed, points } = &case.mode {
+                    // a seeded subset, in the original order
+                    ctx.probe("sampled_crash_points");
+                    let want = *points as usize;
+                    if all_points.len() > want {
+                        let mut r = Rng::new(*seed);
+                        let mut idx: Vec<usize> = (0..all_points.len()).collect();
+                        for j in 0..want {
+                            let k = j + r.usize_below(idx.len() - j);
+                            idx.swap(j, k);
                         }
-                        t.cleanup();
-                        out.inner_evals += 1;
-                        if let Err(mut v) = v {
-                            v.detail = format!("{} [crash specs {:?}]", v.detail, specs);
-                            out.violation = Some(v);
-                            out.nontrivial = true;
-                            let mut reduced = case.clone();
-                            reduced.mode = Mode::Chain(specs);
-                            out.reduced = serde_json::to_value(&reduced).ok();
-                            return out;
+                        let mut keep: Vec<usize> = idx[..want].to_vec();
+                        keep.sort_unstable();
+                        all_points = keep.into_iter().map(|j| all_points[j].clone()).collect();
+                    }
+                }
+                let mut tag = 1;
+                for specs in all_points {
+                    let mut t = Trial::new(ctx, case, tag);
+                    tag += 1;
+                    ctx.event(&format!("--- crash point {specs:?}"));
+                    let (v, _) = t.run(&specs, false);
+                    for o in t.observations.drain(..) {
+                        if !out.observations.contains(&o) {
+                            out.observations.push(o);
                         }
+                    }
+                    let he = t.harness_error.take();
+                    t.cleanup();
+                    out.inner_evals += 1;
+                    if let Err(mut v) = v {
+                        v.detail = format!("{} [crash specs {:?}]", v.detail, specs);
+                        out.violation = Some(v);
+                        out.nontrivial = true;
+                        let mut reduced = case.clone();
+                        reduced.mode = Mode::Chain(specs);
+                        out.reduced = serde_json::to_value(&reduced).ok();
+                        return out;
+                    }
+                    if he.is_some() {
+                        out.harness_error = he;
+                        return out;
+                    }
+                }
+                // Schedules of the `Par` steps, preemption bound 1: each thread in turn starts and
+                // runs until it is done, except for one switch to the next thread at schedule
+                // point j, for every j (a seeded subset when there are more than 64); no crash,
+                // the restarts of the program and of the epilogue judge the outcome.
+                let mut variants: Vec<(usize, Vec<u8>)> = Vec::new();
+                for (at, k, nsteps) in &par_steps {
+                    if !matches!(full_steps(case).get(*at), Some(Step::Par { .. })) {
+                        continue;
+                    }
+                    for start in 0..*k {
+                        for j in 1..(*nsteps).min(60) {
+                            let mut sc = vec![crate::sched::STAY; j + 1];
+                            sc[0] = start as u8;
+                            sc[j] = ((start + 1) % *k) as u8;
+                            variants.push((*at, sc));
+                        }
+                    }
+                }
+                if variants.len() > 64 {
+                    let seed = if let Mode::Sample { seed, .. } = &case.mode { *seed } else { 0 };
+                    let mut r = Rng::new(seed ^ 0x5c4e_d01e);
+                    for j in 0..64 {
+                        let k = j + r.usize_below(variants.len() - j);
+                        variants.swap(j, k);
+                    }
+                    variants.truncate(64);
+                }
+                for (at, sc) in variants {
+                    let mut t = Trial::new(ctx, case, tag);
+                    tag += 1;
+                    ctx.event(&format!("--- schedule of step {at}: start thread {}, one switch at point {}", sc[0], sc.len() - 1));
+                    ctx.probe("par_single_preemption_schedule");
+                    t.par_override = Some((at, sc.clone()));
+                    let (v, _) = t.run(&[], false);
+                    for o in t.observations.drain(..) {
+                        if !out.observations.contains(&o) {
+                            out.observations.push(o);
+                        }
+                    }
+                    let he = t.harness_error.take();
+                    t.cleanup();
+                    out.inner_evals += 1;
+                    if let Err(mut v) = v {
+                        v.detail = format!("{} [schedule of the Par step {at}: thread {} first, one switch at point {}]", v.detail, sc[0], sc.len() - 1);
+                        out.violation = Some(v);
+                        out.nontrivial = true;
+                        let mut reduced = case.clone();
+                        if let Some(Step::Par { schedule, .. }) = reduced.steps.get_mut(at) {
+                            *schedule = sc;
+                        }
+                        reduced.mode = Mode::Chain(Vec::new());
+                        out.reduced = serde_json::to_value(&reduced).ok();
+                        return out;
+                    }
+                    if he.is_some() {
+                        out.harness_error = he;
+                        return out;
                     }
                 }
                 out.nontrivial = syslog.len() >= 2;
@@ -1324,6 +2016,11 @@ impl Scenario for C13 {
             c.recover_after_restart = false;
             v.push(c);
         }
+        if case.handle_numbering != 0 {
+            let mut c = case.clone();
+            c.handle_numbering = 0;
+            v.push(c);
+        }
         for (i, s) in case.steps.iter().enumerate() {
             match s {
                 Step::Vote { t, s: sh, v: vv } if *vv == V::Resend || *vv == V::Flip => {
@@ -1338,6 +2035,43 @@ impl Scenario for C13 {
                 },
                 Step::DriveAll | Step::Decide | Step::Recover | Step::Aborts => {
                     // already covered by drop_chunks
+                },
+                Step::BeginWide { t, n, base, kb } if *n > 1 => {
+                    let mut c = case.clone();
+                    c.steps[i] = Step::BeginWide { t: *t, n: *n / 2, base: *base, kb: *kb };
+                    v.push(c);
+                },
+                Step::Par { threads, schedule, ahead } => {
+                    let ahead = *ahead;
+                    // whole threads, then single operations, then a calmer schedule
+                    for k in 0..threads.len() {
+                        if threads.len() > 1 {
+                            let mut th = threads.clone();
+                            th.remove(k);
+                            let mut c = case.clone();
+                            c.steps[i] = Step::Par { threads: th, schedule: schedule.clone(), ahead };
+                            v.push(c);
+                        }
+                        for ops in drop_chunks(&threads[k]) {
+                            let mut th = threads.clone();
+                            th[k] = ops;
+                            let mut c = case.clone();
+                            c.steps[i] = Step::Par { threads: th, schedule: schedule.clone(), ahead };
+                            v.push(c);
+                        }
+                    }
+                    if !schedule.is_empty() {
+                        let mut c = case.clone();
+                        c.steps[i] = Step::Par { threads: threads.clone(), schedule: schedule[..schedule.len() / 2].to_vec(), ahead };
+                        v.push(c);
+                    }
+                    if let Some(j) = schedule.iter().position(|p| *p != crate::sched::STAY) {
+                        let mut sc = schedule.clone();
+                        sc[j] = crate::sched::STAY;
+                        let mut c = case.clone();
+                        c.steps[i] = Step::Par { threads: threads.clone(), schedule: sc, ahead };
+                        v.push(c);
+                    }
                 },
                 _ => {},
             }
@@ -1368,16 +2102,27 @@ impl Scenario for C13 {
             "third_restart",
             "three_crashes_in_one_run",
             "crash_inside_tail_repair",
+            // round 2
+            "restart_over_log_record_of_64KiB_or_more",
+            "restart_over_log_record_of_512KiB_or_more",
+            "crash_inside_log_record_of_64KiB_or_more",
+            "par_prepared_by_votes_of_two_threads",
+            "par_preempted_at_lock_acquisition",
+            "par_single_preemption_schedule",
+            "par_completion",
+            "crash_inside_par_block",
+            "lock_handle_value_reused_by_another_tx",
+            "unreleased_lock_shares_handle_value_with_released_lock",
         ]
     }
     fn rule(&self) -> String {
-        "A case is a generated program (1-4 transactions of 1-3 participants with overlapping keys; begin, votes yes/no/resent/flipped/late, commit, abort, clock advances, timeout sweeps, abort broadcasts, pending-decision completion, recover(), clean restarts) followed by a fixed epilogue (restart; drive every recovered transaction to completion; restart; sweep after every timeout; a new transaction on the same keys; restart). In Enumerate mode every mutating syscall boundary of program+epilogue (with the un-synced log bytes kept, dropped, or cut at a pseudo-random length) and byte offsets inside every log write (all offsets of records up to 48 bytes, ~25 sampled ones of longer records) are each taken as a power-loss crash point (inner_enumerated_points counts these executions); each is followed by restart from the log, the property checks, the rest of the program and the epilogue (three more restarts). Chain mode runs 1-3 seeded crashes in one execution, the later ones shortly after a restart. Non-trivial: at least one crash fired (Chain) or the program issued >=2 mutating syscalls (Enumerate). Distinct: hash of (recover flag, mode, sequence of step kinds and crash sites).".into()
+        "A case is a generated program followed by a fixed epilogue (restart; drive every recovered transaction to completion; restart; sweep after every timeout; a new transaction on the same keys; restart). Three shapes, chosen by run index: (5/8) the round-1 program: 1-4 transactions of 1-3 participants with overlapping keys; begin, votes yes/no/resent/flipped/late, commit, abort, clock advances, timeout sweeps, abort broadcasts, pending-decision completion, recover(), clean restarts; (1/8) the same with one transaction of 8 300 - 262 000 participants begun in the middle (TxBegin / AbortIntent records of 64 KiB - 1 MiB; every 12th of these has the 1 MiB record); (2/8) 1-3 transactions whose participants' votes and, now and then, commit and/or abort are issued by 2-4 scheduled threads (one block for all or one per transaction; participants prepare inside the threads or one after the other ahead of them), followed by decisions, clean restarts or a commit/abort race after a restart. In half of the cases the YES votes carry participant-numbered lock handles that start again from 1 in every incarnation. Enumerate mode (round-1 shape): every mutating syscall boundary of program+epilogue (un-synced log bytes kept, dropped, or cut at a pseudo-random length) and byte offsets inside every log write (all offsets of records up to 48 bytes, ~25 sampled ones of longer records) are each taken as a power-loss crash point, each followed by restart from the log, the property checks, the rest of the program and the epilogue (three more restarts). Sample mode (wide and thread shapes): a seeded subset (10-40) of the same crash points, and, for every thread block, the schedules with preemption bound 1 (each thread starts first; one switch at schedule point j, for every j; at most 64 per case) without a crash. Chain mode: 1-3 seeded crashes in one execution, the later ones shortly after a restart. inner_enumerated_points counts all these executions. Non-trivial: at least one crash fired (Chain) or the program issued >=2 mutating syscalls (Enumerate, Sample). Distinct: hash of (recover flag, mode, handle numbering, sequence of step kinds and crash sites).".into()
     }
     fn components(&self) -> Value {
         json!({
-            "real": ["tensor_chain::DistributedTxCoordinator (begin, handle_prepare, record_vote, commit, abort, cleanup_timeouts, process_pending_aborts, recover_from_wal, recover, get_pending_decisions, complete_commit, complete_abort, lock_manager)", "tensor_chain::TxWal (open, append, replay), TxRecoveryState", "LockManager / WaitForGraph", "std::fs / BufWriter"],
-            "simulated": ["disk: libc write/fsync/open/ftruncate interposed, files on tmpfs with durable-watermark bookkeeping; crash at a chosen syscall/byte; power loss cuts the log to a length between fsynced and written", "clock (SystemTime/Instant) advanced by the step list", "network: SimTransport collects the abort broadcasts"],
-            "stub": ["participants: votes are scripted by the step list (a first YES takes its lock through the coordinator's real handle_prepare)"]
+            "real": ["tensor_chain::DistributedTxCoordinator (begin, handle_prepare, record_vote, commit, abort, cleanup_timeouts, process_pending_aborts, recover_from_wal, recover, get_pending_decisions, complete_commit, complete_abort, lock_manager)", "tensor_chain::TxWal (open, append, replay), TxRecoveryState", "LockManager / WaitForGraph", "std::fs / BufWriter", "tensor_chain::sync_compat locks (their acquisitions are the schedule points of the thread blocks)"],
+            "simulated": ["disk: libc write/fsync/open/ftruncate interposed, files on tmpfs with durable-watermark bookkeeping; crash at a chosen syscall/byte; power loss cuts the log to a length between fsynced and written", "clock (SystemTime/Instant) advanced by the step list", "network: SimTransport collects the abort broadcasts", "threads of a Par step: real OS threads run one at a time by the baton scheduler, switched only at tensor_chain lock acquisitions and between operations, the picks are part of the case"],
+            "stub": ["participants: votes are scripted by the step list (a first YES takes its lock through the coordinator's real handle_prepare; with handle_numbering=1 the vote names that lock by the participant's own number, 1, 2, ... in every incarnation)"]
         })
     }
     fn assumptions(&self) -> Vec<String> {
@@ -1387,6 +2132,8 @@ impl Scenario for C13 {
             "complete_commit/complete_abort and cleanup_timeouts write no log record: their outcomes are not 'logged completions'; what happens to such transactions after the next restart is reported as an observation only".into(),
             "the restarted coordinator lives in the same process: lock handles stay unique across restarts (the handle counter is a process global), and its LockManager is new (the log does not carry locks)".into(),
             "log rotation (size limit 1 GB by default) is never reached".into(),
+            "'locks of completed transactions are released' after a restart is decided on recovery's report: the restarted coordinator's lock manager is new, so a lock that a completed transaction never gave back exists only as log records; it counts as released when the log holds a LockRelease record of that transaction for it or AllLocksReleased for the transaction, or when TxRecoveryState (what recover_from_wal acts on) lists it as orphaned for that transaction. A lock is identified by (transaction, handle), never by the handle value alone".into(),
+            "in a thread block every participant's messages come from one thread (two different answers of one participant never race each other; they do follow each other, as in round 1); the ledger is updated in the order in which the coordinator's calls returned".into(),
         ]
     }
 }
